@@ -3,6 +3,7 @@ package main
 import (
 	"fmt"
 	"go/ast"
+	"go/format"
 	"go/parser"
 	"go/token"
 	"os"
@@ -48,7 +49,7 @@ func modelComments(src string) (*fileComments, error) {
 		fc.Decls = append(fc.Decls, dc)
 	}
 	line := func(p token.Pos) int { return fs.PositionFor(p, false).Line } // physical lines, whatever //line directives say
-	for _, cg := range f.Comments {
+	for _, cg := range regroupComments(fs, f, src) {
 		for _, c := range realComments(cg) {
 			fc.All = append(fc.All, c.Text)
 		}
@@ -113,6 +114,35 @@ func modelComments(src string) (*fileComments, error) {
 	return fc, nil
 }
 
+// regroupComments groups the comments of a file by physical adjacency (next comment starts on the line after the
+// previous one ends, nothing but white space in between). go/parser groups by line numbers as //line directives
+// renumber them, so whether a directive and the comment below it form one group depends on the numbers in the
+// directive and on how many lines precede it: not on anything the rewrite did to them.
+func regroupComments(fs *token.FileSet, f *ast.File, src string) []*ast.CommentGroup {
+	var out []*ast.CommentGroup
+	tf := fs.File(f.Pos())
+	var prev *ast.Comment
+	for _, cg := range f.Comments {
+		for _, c := range cg.List {
+			joined := false
+			if prev != nil {
+				a, b := tf.Offset(prev.End()), tf.Offset(c.Pos())
+				if a <= b && b <= len(src) && strings.TrimSpace(src[a:b]) == "" && fs.PositionFor(c.Pos(), false).Line <= fs.PositionFor(prev.End(), false).Line+1 {
+					joined = true
+				}
+			}
+			if joined {
+				g := out[len(out)-1]
+				g.List = append(g.List, c)
+			} else {
+				out = append(out, &ast.CommentGroup{List: []*ast.Comment{c}})
+			}
+			prev = c
+		}
+	}
+	return out
+}
+
 func nonImport(ds []declComments) []declComments {
 	var out []declComments
 	for _, d := range ds {
@@ -127,6 +157,11 @@ func joinC(xs []string) string { return strings.Join(xs, " | ") }
 
 // judgeComments applies the C17 oracle to one (input, output) pair.
 func judgeComments(src, out string) (class, detail string, untouchedWithComments int, inconcl string) {
+	// the input in gofmt's layout: where comment groups begin and end, and where directive lines stand in a doc
+	// comment, is decided by gofmt (and depends on the numbers in //line directives); the output is in that layout
+	if fsrc, ferr := format.Source([]byte(src)); ferr == nil {
+		src = string(fsrc)
+	}
 	a, err := modelComments(src)
 	if err != nil {
 		return "", "", 0, "input does not parse"
@@ -157,6 +192,17 @@ func judgeComments(src, out string) (class, detail string, untouchedWithComments
 	if hi != len(a.Header) {
 		return "header-comments-changed", fmt.Sprintf("%q => %q", joinC(a.Header), joinC(b.Header)), 0, ""
 	}
+	// an import declaration that is still there with the same specs keeps its doc comment (a cgo preamble is one)
+	for _, ia := range a.Decls {
+		if !ia.IsImport || len(ia.Doc) == 0 {
+			continue
+		}
+		for _, ib := range b.Decls {
+			if ib.IsImport && ref.Equal(ia.Canon, ib.Canon) && joinC(ia.Doc) != joinC(ib.Doc) {
+				return "doc-comment-of-untouched-import-declaration", fmt.Sprintf("%q => %q", joinC(ia.Doc), joinC(ib.Doc)), 0, ""
+			}
+		}
+	}
 	da, db := nonImport(a.Decls), nonImport(b.Decls)
 	if len(da) != len(db) {
 		return "", "", 0, "declaration count changed (C05)"
@@ -172,7 +218,16 @@ func judgeComments(src, out string) (class, detail string, untouchedWithComments
 		if len(da[i].Doc)+len(da[i].Interior)+len(da[i].Trailing) > 0 {
 			untouchedWithComments++
 		}
-		if joinC(da[i].Doc) != joinC(db[i].Doc) && joinC(da[i].Doc) != joinC(append(append([]string{}, db[i].Detached...), db[i].Doc...)) {
+		importComments := false
+		for _, d := range a.Decls {
+			if d.IsImport && len(d.Doc)+len(d.Interior)+len(d.Trailing)+len(d.Detached) > 0 {
+				importComments = true
+			}
+		}
+		// merging import declarations leaves the comments of the merged ones behind the import block, in front of the
+		// first declaration that follows
+		afterImports := i == 0 && importComments && strings.HasSuffix(joinC(append(append([]string{}, db[i].Detached...), db[i].Doc...)), joinC(append(append([]string{}, da[i].Detached...), da[i].Doc...)))
+		if joinC(da[i].Doc) != joinC(db[i].Doc) && joinC(da[i].Doc) != joinC(append(append([]string{}, db[i].Detached...), db[i].Doc...)) && !afterImports {
 			return "doc-comment-of-untouched-declaration", fmt.Sprintf("declaration %d: doc %q => %q (detached %q)", i, joinC(da[i].Doc), joinC(db[i].Doc), joinC(db[i].Detached)), untouchedWithComments, ""
 		}
 		if joinC(da[i].Interior) != joinC(db[i].Interior) {
@@ -283,9 +338,13 @@ func commentDenseFileImports(g *gen.G, needImports bool) string {
 	hasImports := false
 	layout := r.Intn(7)
 	if needImports {
-		layout = []int{0, 2, 3, 4, 4}[r.Intn(5)]
+		layout = []int{0, 2, 3, 4, 4, 7, 7}[r.Intn(7)]
 	}
 	switch layout {
+	case 7:
+		// single-spec import declarations, the later ones documented (a cgo preamble is such a doc comment)
+		sb.WriteString("import \"os\"\n\n// #include <stdio.h>\nimport \"C\"\n\n" + cm("line") + "\nimport \"fmt\"\n\n")
+		hasImports = true
 	case 4:
 		// several import declarations: adding or removing an import merges them
 		sb.WriteString("import \"os\"\nimport \"fmt\"\nimport \"strings\"\n\n")
